@@ -534,6 +534,31 @@ func checkTreeOwner(c *BuildCase) []Violation {
 			if n != 2 {
 				vs.add("C01.missing.file", f, "%d of 2 files of the tree are in the payload", n)
 			}
+			// the same destination spelled without / with the leading slash denotes the same place: same entries,
+			// same owners (the normalised absolute destination is what counts)
+			c2 := cloneCase(c)
+			if strings.HasPrefix(c.Contents[0].Dst, "/") {
+				c2.Contents[0].Dst = strings.TrimPrefix(c.Contents[0].Dst, "/")
+			} else {
+				c2.Contents[0].Dst = "/" + c.Contents[0].Dst
+			}
+			if raw2, err := c2.BuildOne(root, f); err == nil {
+				if d2, err := Decode(f, raw2); err == nil {
+					own := func(d *Decoded) map[string]string {
+						m := map[string]string{}
+						for _, e := range d.Payload {
+							m[e.Abs] = e.Kind + " " + e.Owner + ":" + e.Group
+						}
+						return m
+					}
+					a, b := own(d), own(d2)
+					for _, p := range sortedKeys(a) {
+						if a[p] != b[p] {
+							vs.add("C01.spelling-dependent", f, "%s is %q with dst %q but %q with dst %q", p, a[p], c.Contents[0].Dst, b[p], c2.Contents[0].Dst)
+						}
+					}
+				}
+			}
 		}
 		return nil
 	})
